@@ -322,11 +322,33 @@ EXTRA5 = {
 }
 
 
+EXTRA6 = {
+    'C01': ' Round 10: via the call graph, a sequence is deferred behind a pending symbol only if it yields a symbol or result (C01.H24).',
+    'C03': ' Round 10: AUTO-SYN generator role only behind the read-back of the own SYN (C03.R20).',
+    'C04': ' Round 10: an own AUTO-SYN resets the lock counter on every path to the early return (C04.R12).',
+    'C05': ' Round 10: null output decided on the raw pattern, not behind the scaling (C05.R13); value-list lookup precedes every null '
+           'output (C05.R14).',
+    'C06': ' Round 10: a value-list field prints only through its own operator<< on the unsigned key (C06.R14).',
+    'C08': ' Round 10: MessageMap::add is all-or-nothing (C08.R9); replace mode takes a bucket entry only behind checkId(const '
+           'Message&) (C08.R10).',
+    'C09': ' Round 10: NN set before a telegram with placeholder length is compared or cached (C09.R16); reset of all part arrival '
+           'times (C09.R17).',
+    'C10': ' Round 10: the result of getline into a token that outlives the call is looked at (C10.R11).',
+    'C13': ' Round 10: the change time is copied from an update time taken before the copy (C13.R14).',
+    'C14': ' Round 10: deferral only for sequences that touch the pending symbol (C14.R16); computed "more" values count as '
+           'deferrals (C14.R4).',
+    'C17': ' Round 10: every insertion into the poll queue has a priority above 0 (C17.R8).',
+    'C18': ' Round 10: a request is complete only behind the found terminator or with nothing pending (C18.R17).',
+    'C19': ' Round 10: via the call graph, replace mode removes only definitions with the same ID (C19.H25).',
+    'C20': ' Round 10: request objects are freed behind a refused addRequest or created only when not read-only (C20.R22).',
+}
+
+
 def main():
     checks = []
     for pid in sorted(CHECKS):
         c = dict(CHECKS[pid])
-        c['text'] = c['text'] + EXTRA.get(pid, '') + EXTRA2.get(pid, '') + EXTRA3.get(pid, '') + EXTRA4.get(pid, '') + EXTRA5.get(pid, '')
+        c['text'] = c['text'] + EXTRA.get(pid, '') + EXTRA2.get(pid, '') + EXTRA3.get(pid, '') + EXTRA4.get(pid, '') + EXTRA5.get(pid, '') + EXTRA6.get(pid, '')
         if pid in ('C01', 'C02', 'C03', 'C05', 'C06', 'C07', 'C08', 'C09', 'C10', 'C11', 'C13', 'C14', 'C15', 'C19', 'C20'):
             c['technique'] += '; finite evaluation of inline accessors / conditions from the typed AST on enumerated model states'
         checks.append({
